@@ -58,7 +58,7 @@ def oracle_c05(scn, run):
     bad = [l["id"] for l in d if not l["hash_ok"]]
     if bad:
         v.append(({"class": "hash-chain"}, "entries %s do not carry the digest of (previous hash, own content)" % bad))
-    v += oracle_stored(scn, run)
+    v += oracle_stored(scn, run, fields=False)   # C05: the stored chain verifies; which field of a row differs is C13's business
     tids = [int(l["tx"]["id"]) for l in tx_logs(d)]
     if tids != list(range(len(tids))):
         dry_ok = any(scn["requests"][r["req"]].get("dry") and r["ok"] for r in run["responses"])
@@ -66,7 +66,7 @@ def oracle_c05(scn, run):
     return v
 
 
-def oracle_stored(scn, run):
+def oracle_stored(scn, run, fields=True):
     """every durable entry is written by the REAL ledgerstore.Store.InsertLogs (the call the batcher's worker makes, on a table that records
     the COPY arguments); the row, read back as a SELECT hands it over (Logs.ToCore), must be the entry that was handed in — id, type, date,
     idempotency key, payload, hash — and re-hash to the stored hash over the previous row read back the same way"""
@@ -81,7 +81,7 @@ def oracle_stored(scn, run):
         if "panic" in sr:
             v.append(({"class": "store-decode-panic"}, "entry %s: Logs.ToCore panics on the stored row: %s" % (l["id"], sr["panic"])))
             continue
-        if "written" in sr:
+        if "written" in sr and fields:
             for f in ("id", "type", "date", "ik", "data", "hash"):
                 a, b = sr["written"].get(f), sr["row"].get(f)
                 if canon(a) != canon(b):
